@@ -42,6 +42,9 @@ CHECKS = {
  "C12": dict(engine="vcrash", category="fault_enumeration", technique="runtime fault injection: child process killed with abort() at every storage statement boundary (tick hook H2) of 7 operation templates on a copy of the database, parent re-opens, checks loadability, re-delivers and compares with the uninterrupted twin; in-process error/panic injection at every labelled point inside the snapshot and restore transactions",
    text="Fault enumeration: every storage tick of every template instance (application message, proposal, commit, commit-with-rollback, process+accept welcome, create_message, self_update+merge) is used as a death point; after re-opening the database must open, every group must load, and re-delivery of the interrupted and all later events must end in the uninterrupted twin's fingerprint (receiver operations) or the operation must be recoverable with a peer following (own operations); injected errors and panics inside the two explicit transactions must leave group and snapshot set exactly as before.",
    note="Death = abort() before the statement at the cut executes; torn pages / power loss are SQLite's journal's business and out of scope; own operations are judged by recoverability, not by twin equality.", ref="5/C12"),
+ "C13": dict(engine="vsim+files", technique="runtime monitoring: byte scanner over every file of the database directory (after every step and inside explicit transactions via tick hook) for a registry of secrets learnt during SQLCipher-backed histories, with an unencrypted positive control; constructor expectation matrix; barrier-synchronised concurrent first opens; PRAGMA observation through hook H3",
+   text="Exploration: on N histories on an encrypted client no registered secret (canary message bodies incl. 20-50 KB ones, group name, MLS group id, nostr ids, exporter secrets, image key/nonce, database key) appears in any file in raw or hex form at any scan point, while the same scanner finds every class in an unencrypted control; constructors behave per the expectation table on plain / encrypted(k1,k2,keyring) / missing files, a refused open damages nothing, re-opening with the right key yields the same fingerprint; files are 0600 and created directories 0700; concurrent first opens end with one keyring key under which every successful opener's rows are visible.",
+   note="A temp-file spill is not provoked (temp_store=MEMORY is observed through H3); the keyring is keyring-core's mock store; opens that lose the schema-migration race are information, not judged.", ref="5/C13"),
  "C16": dict(engine="vsim+adversary", technique="runtime monitoring: invitation workload (valid welcome re-processed under same/fresh wrapper ids in every welcome state, accept/decline, forged welcomes built with OpenMLS by member/inviter/outsider) with before/after fingerprints of every group, stored-welcome comparison, joiner-vs-inviter state comparison and liveness probes of the existing group",
    text="Exploration: on N invitation sequences: re-processing returns the same stored welcome and changes nothing; no group is Active without accept_welcome; after accept the joiner's MLS state, members, group data, relays and mirrored record equal the inviter's post-commit state with self-update Required; no invitation changes an Active group's fingerprint and that group still processes its next message and commit; a stored welcome is never replaced.",
    note="wrapper_event_id of the stored welcome is not compared across wrapper ids; forged welcomes come from a throw-away OpenMLS group (MlsGroup::new_with_group_id) with hand-encoded group-data extension bytes.", ref="5/C16"),
